@@ -58,16 +58,16 @@ Step(e) ==
              announced == sl.pending # <<>> /\ e.v = Head(sl.pending)
              why == IF e.panic THEN "push-panicked"
                     ELSE IF announced /\ e.ca # e.cb THEN "capacity-changed-after-presizing"
-                    ELSE IF announced /\ plain /\ e.allocs # 0 THEN "allocator-called-after-presizing"
+                    ELSE IF announced /\ plain /\ e.measured /\ e.allocs # 0 THEN "allocator-called-after-presizing"
                     ELSE IF ~announced /\ ~GrowthLaw(e.cb, e.ca) THEN "capacity-grew-less-than-doubling"
-                    ELSE IF ~announced /\ plain /\ e.allocs > AllocBudget(e.cb, e.ca) THEN "allocation-without-growth"
+                    ELSE IF ~announced /\ plain /\ e.measured /\ e.allocs > AllocBudget(e.cb, e.ca) THEN "allocation-without-growth"
                     ELSE "ok"
          IN  IF why = "ok"
              THEN /\ slots' = [slots EXCEPT ![e.s] =
                                  [issued |-> Append(sl.issued, e.v),
                                   pending |-> IF announced THEN Tail(sl.pending) ELSE <<>>,
                                   grows |-> Bumped(sl.grows, e.cb, e.ca),
-                                  total |-> sl.total + e.allocs]]
+                                  total |-> sl.total + (IF e.measured THEN e.allocs ELSE 0)]]
                   /\ UNCHANGED <<plain, skip, errs>>
              ELSE errs' = Err(e, why) /\ skip' = TRUE /\ UNCHANGED <<slots, plain>>
     [] e.ev = "presize_items" ->
